@@ -56,7 +56,7 @@ def _work(i):
                     "status": "proved" if r == z3.sat else ("vacuous" if r == z3.unsat else "unknown"),
                     "backend": "z3-5.1", "secs": 0.0, "exc": "", "detail": "", "model": {}})
                 continue
-            v = smt.discharge(ob.pc, ob.goal, tmo)
+            v = smt.discharge(ob.pc, ob.goal, tmo, watch=ob.watch, hints=ob.hints)
             if v.status != "proved":
                 settled[ob.ident] = v.status     # one failing path decides the site
             res["obligations"].append({
